@@ -344,8 +344,8 @@ impl World {
         let w = self.model_fee_window(tip);
         if !w.is_empty() {
             let p = model::fee_percentiles(&w);
-            if !self.fee_candidates.contains(&p) {
-                self.fee_candidates.push(p);
+            if !self.fee_candidates.contains(&(tip, p.clone())) {
+                self.fee_candidates.push((tip, p));
             }
             if w.len() >= 10_000 {
                 self.stats.probe("fee_window_10000_cut");
@@ -413,10 +413,12 @@ impl World {
         } else {
             self.note_fee_candidate();
             let ok = if window.is_empty() {
-                r.is_empty() || self.fee_candidates.contains(&r)
+                // nothing to report for this tip: nothing, or a previous answer
+                r.is_empty() || self.fee_candidates.iter().any(|(_, v)| *v == r)
             } else {
-                // some anchor position during this tip's time as best tip
-                self.fee_candidates.contains(&r)
+                // the window of *this* tip, for some anchor position during its time as best tip
+                // (the cache is kept until the tip changes, so the anchor may have moved on)
+                self.fee_candidates.iter().any(|(t, v)| *t == tip && *v == r)
             };
             if !ok {
                 return Err(violation(
